@@ -443,6 +443,10 @@ class ChartRules:
         itm = dict(ret[0].value[3]).get("instrument_tracks") if ret else None
         I, Dd = ("proj", PAIR, 0), ("proj", PAIR, 1)
         forms = []
+        if itm is not None and not (itm == ("call", ("builtin", "dict"), (), ()) or (itm[0] == "dict" and not itm[1])):
+            fail(r, ctx, f, ret[0].node, f"the instrument map handed to the Chart must be a dict allocated empty by this very call of from_file; "
+                                         f"found {show(itm)[:100]} -- a parameter default, a class attribute or any other object that outlives "
+                                         f"the call makes one parse's tracks appear in another's")
         if itm is not None:
             forms = [("call", ("meth", "setdefault"), (itm, I, ANYP), ()), ("sub", itm, I)]
         stores = [e for e in s.effects if e.kind == "store_sub" and e.loops == (loop.id,)]
